@@ -61,6 +61,22 @@ add("C03", "E2", "property-based testing: generated nesting trees with permuted 
     "Exploration: random nesting trees (named/tuple nodes, child-path ghosts) with the flat struct's members in a random permutation, and the inverse family (#[parent(..)] recursive / bare #[parent]); rustc must accept the expansion (a struct built twice or a missing member is a compile error) and From/Into/IntoExisting results must equal a literally written reference.",
     TB2, "DESIGN.md 3/C03")
 
+add("C07", "E2", "property-based testing: pairwise (metamorphic) agreement of the 12 flavours of one generated mapping, compiled and run",
+    "Exploration: one generated mapping is requested in all 12 flavours (fallible ones on a twin type with the same member instructions, optionally with an error-raising member); by-ref vs owned, Try vs Ok(infallible), error propagation, and into_existing vs into on a sentinel-filled destination are compared at run time. No reference function is involved.",
+    TB2, "DESIGN.md 3/C07")
+add("C08", "E2+E1", "property-based testing: execution-trace / value oracle for vars, ..update and return (compiled and run) + token-position oracle for the three attribute parameters",
+    "Exploration: (E2) generated parameter lists on every requested kind; a thread-local trace records the evaluation of var initialisers and member expressions, values are compared with the plan's expected value; (E1) attribute / impl_attribute / inner_attribute markers must sit at the documented token positions of every impl the instruction produces and nowhere else.",
+    TB2, "DESIGN.md 3/C08")
+add("C09", "E2", "property-based testing: first-match reference model, exhaustive over 8-bit value domains, compiled and run",
+    "Exploration: generated literal / pattern assignments (distinct and overlapping) over i8, u8, i32 and &'static str; From is compared with an if-chain model on every value of 8-bit types and on boundary values otherwise; Into on every variant; round-trip for unshadowed literals.",
+    TB2 + "; exhaustive over the primitive's values only for i8/u8", "DESIGN.md 3/C09")
+add("C11", "E2", "property-based testing: differential type-checking against hand-written reference impl headers (rustc --emit=metadata)",
+    "Exploration: generated parameter lists (lifetimes, bounded / const / defaulted params), counterpart paths with generic and counterpart-only lifetime arguments, where_clauses; hand-written impls for twin types with headers rendered from the property text must type-check (else discarded) and then the pasted o2o impls must, plus use-site fns through every impl; README borrowing shapes check the 'o2o outlives bound.",
+    TB2 + "; compile-only (no run)", "DESIGN.md 3/C11")
+add("C20", "E1+E2", "property-based testing: token-vocabulary invariant over generated expansions + #![no_std] type-check of generated mapping plans",
+    "Exploration: (E1) every library path in generated expansions must be one of the allowed core / o2o::traits paths or be made of user names, and no std/alloc/prelude-only identifier may be introduced; (E2) the mapping plans of C01/C02/C03/C07 are type-checked as a #![no_std] rlib against the no-feature o2o crate.",
+    TB2, "DESIGN.md 3/C20")
+
 NOT_YET = {
 }
 
